@@ -3,6 +3,7 @@
 from __future__ import annotations
 
 import random
+import re
 from dataclasses import dataclass, field
 
 from nmverif.gen import canon
@@ -13,6 +14,8 @@ from nmverif.worker import quarantined, wal_text
 VALUE_POOL = ['"9.9.9"', "42", "true", "null", "fresh", "fresh.attr", "fresh 1", "[ ]", "[ u v ]",
               "{ }", "./new.nix", '"a b"', "-7", "u + 1", "!u"]
 MULTILINE_VALUES = ["[\n  u\n  v\n]", "{\n  k = 1;\n  m = 2;\n}", "''\n  text\n''"]
+# values that carry comments of their own (the VALUE argument is any expression text)
+COMMENTED_VALUES = ["2 # vc1", "/* vc2 */ 2", "# vc3\n2", "2 /* vc4 */", "[ u ] # vc5", "{ } # vc6"]
 BAD_VALUES = ["", "   ", "# only a comment", "1 2 ;", "1 +", "{ a = ", "a b )", "1; 2", "let x = 1;", "[ 1", "\n"]
 MALFORMED_PATHS = ["", ".", "a..b", ".a", "a.", 'a"b"', '"a', 'a."b', '"a\\', "a-b", "1a", "a b", "'a",
                    "a.$", "@", "@@", '"a"b', "a.\"b\"c", "a,b", "a;"]
@@ -67,7 +70,11 @@ def choose_ops(rng: random.Random, dv: A.DocView, n: int, *, scoped: bool = True
     mixed_sets = [p for p, nd in paths if nd.kind == "set" and nd.via_attrpath and nd.explicit]
     for _ in range(n):
         k = rng.random()
-        val = rng.choice(VALUE_POOL if rng.random() < 0.85 else MULTILINE_VALUES)
+        kv = rng.random()
+        val = rng.choice(VALUE_POOL if kv < 0.80 else (MULTILINE_VALUES if kv < 0.93 else COMMENTED_VALUES))
+        if kv >= 0.93:
+            # the value's own comment gets a mark that is unique to this operation
+            val = re.sub(r"vc\d+", f"vc{rng.randrange(10 ** 7)}", val)
         fresh = rng.choice(fresh_names) + str(rng.randrange(100))
         if k < 0.22 and leaves:
             p = rng.choice(leaves)
